@@ -277,6 +277,29 @@ def from_arg_table(run):
             run.violation({"kind": "from_arg_alias_does_not_take_precedence_over_name", "got": type(n).__name__,
                            "name_kwarg": repr(getattr(n, "name", None)), "mapping": {"alias": "", "name": "hann"},
                            "what": "a class registered under the empty alias"})
+        # "the one registered last wins" whatever travels with the alias: if it does not take the keyword arguments, that
+        # is an error of the call - never a reason to build the class registered before it
+        class Newer(filters.WindowFunction):
+            aliases = {"verif-named"}
+
+            def __init__(self):
+                pass
+
+            def get_impulse_response(self, width):
+                return np.zeros(width)
+        try:
+            Named.aliases = {"verif-named"}
+            try:
+                n = f(W, {"alias": "verif-named", "name": "x"})
+            except Exception:
+                n = None
+            if isinstance(n, Named):
+                run.violation({"kind": "from_arg_last_registered_does_not_win", "got": "Named (registered first)",
+                               "what": "the class registered last does not accept the keyword arguments"})
+            if type(f(W, "verif-named")) is not Newer:
+                run.violation({"kind": "from_arg_last_registered_does_not_win", "got": type(f(W, "verif-named")).__name__})
+        finally:
+            Newer.aliases = set()
     finally:
         Named.aliases = set()
     for m, cls in (({"alias": "gamma", "order": 2}, filters.GammaWindow), ({"name": "hann"}, filters.HannWindow),
